@@ -221,9 +221,13 @@ package jet
 //@   ensures [nilable-kinds-ask-isnil] RvValid(v) && (RvKind(v) == 18 || RvKind(v) == 19 || RvKind(v) == 20 || RvKind(v) == 21 || RvKind(v) == 22 || RvKind(v) == 23) ==> result == !RvIsNil(v)
 //@   ensures [other-kinds-always-exist] RvValid(v) && !(RvKind(v) == 18 || RvKind(v) == 19 || RvKind(v) == 20 || RvKind(v) == 21 || RvKind(v) == 22 || RvKind(v) == 23) ==> result == true
 //@ func toInt
-//@   props C10 C07 C12
+//@   props C10 C07 C12 C04
+//@   ensures [signed-integers-convert-to-themselves] {C04} RvValid(v) && KInt(RvKind(v)) ==> result == RvInt(v)
+//@   ensures [unsigned-integers-convert-to-themselves] {C04} RvValid(v) && 7 <= RvKind(v) && RvKind(v) <= 11 ==> result == RvUint(v)
 //@ func toUint
-//@   props C10 C07 C12
+//@   props C10 C07 C12 C04
+//@   ensures [unsigned-integers-convert-to-themselves] {C04} RvValid(v) && 7 <= RvKind(v) && RvKind(v) <= 11 ==> result == RvUint(v)
+//@   ensures [non-negative-signed-integers-convert-to-themselves] {C04} RvValid(v) && KInt(RvKind(v)) && RvInt(v) >= 0 ==> result == RvInt(v)
 //@ func toFloat
 //@   props C10 C07 C12
 //@ func getTypeString
@@ -309,6 +313,9 @@ package jet
 //@   requires RtOK(st) && node != nil && WF(iface(node, "*NumericComparativeExprNode"))
 //@   modifies @Interp
 //@   ensures [relational-operators-yield-a-bool] {C04} RvValid(result) && RvKind(result) == 1
+//@   check [two-go-integers-compare-integrally] {C04} KInt(RvKind(siteret("(*Runtime).evalPrimaryExpressionGroup", 0, 0))) && KInt(RvKind(siteret("(*Runtime).evalPrimaryExpressionGroup", 1, 0))) ==> RvBool(result) == ite(node.binaryExprNode.Operator.typ == itemGreat, RvInt(siteret("(*Runtime).evalPrimaryExpressionGroup", 0, 0)) > RvInt(siteret("(*Runtime).evalPrimaryExpressionGroup", 1, 0)), ite(node.binaryExprNode.Operator.typ == itemGreatEquals, RvInt(siteret("(*Runtime).evalPrimaryExpressionGroup", 0, 0)) >= RvInt(siteret("(*Runtime).evalPrimaryExpressionGroup", 1, 0)), ite(node.binaryExprNode.Operator.typ == itemLess, RvInt(siteret("(*Runtime).evalPrimaryExpressionGroup", 0, 0)) < RvInt(siteret("(*Runtime).evalPrimaryExpressionGroup", 1, 0)), ite(node.binaryExprNode.Operator.typ == itemLessEquals, RvInt(siteret("(*Runtime).evalPrimaryExpressionGroup", 0, 0)) <= RvInt(siteret("(*Runtime).evalPrimaryExpressionGroup", 1, 0)), RvBool(result)))))
+//@   callsite (*Runtime).evalPrimaryExpressionGroup 0 requires [left-operand-first] {C04} node == caller.node.binaryExprNode.Left
+//@   callsite (*Runtime).evalPrimaryExpressionGroup 1 requires [right-operand-second] {C04} node == caller.node.binaryExprNode.Right
 //@   check [a-float-operand-makes-the-comparison-floating-point] {C04} KFloat(RvKind(lastret("(*Runtime).evalPrimaryExpressionGroup", 0))) ==> ncalls("toInt") == 0 && ncalls("toUint") == 0
 //@   ensures [balanced] SameS(st)
 //@   anypanic
@@ -338,6 +345,12 @@ package jet
 //@   requires RtOK(st) && node != nil && WF(iface(node, "*MultiplicativeExprNode"))
 //@   modifies @Interp
 //@   check [a-float-operand-makes-the-operation-floating-point] {C04} KFloat(RvKind(lastret("(*Runtime).evalPrimaryExpressionGroup", 0))) && node.binaryExprNode.Operator.typ != itemMod ==> ncalls("toInt") == 0 && ncalls("toUint") == 0
+//@   check [two-go-integers-multiply-integrally] {C04} node.binaryExprNode.Operator.typ == itemMul && KInt(RvKind(siteret("(*Runtime).evalPrimaryExpressionGroup", 0, 0))) && KInt(RvKind(siteret("(*Runtime).evalPrimaryExpressionGroup", 1, 0))) ==> RvKind(result) == 6 && RvInt(result) == RvInt(siteret("(*Runtime).evalPrimaryExpressionGroup", 0, 0)) * RvInt(siteret("(*Runtime).evalPrimaryExpressionGroup", 1, 0))
+//@   check [integer-division-and-modulo-stay-integral] {C04} (node.binaryExprNode.Operator.typ == itemDiv || node.binaryExprNode.Operator.typ == itemMod) && KInt(RvKind(siteret("(*Runtime).evalPrimaryExpressionGroup", 0, 0))) && KInt(RvKind(siteret("(*Runtime).evalPrimaryExpressionGroup", 1, 0))) ==> RvKind(result) == 6
+//@   check [integer-division-truncates] {C04} node.binaryExprNode.Operator.typ == itemDiv && KInt(RvKind(siteret("(*Runtime).evalPrimaryExpressionGroup", 0, 0))) && KInt(RvKind(siteret("(*Runtime).evalPrimaryExpressionGroup", 1, 0))) ==> RvInt(result) == RvInt(siteret("(*Runtime).evalPrimaryExpressionGroup", 0, 0)) / RvInt(siteret("(*Runtime).evalPrimaryExpressionGroup", 1, 0))
+//@   check [integer-modulo-is-the-remainder] {C04} node.binaryExprNode.Operator.typ == itemMod && KInt(RvKind(siteret("(*Runtime).evalPrimaryExpressionGroup", 0, 0))) && KInt(RvKind(siteret("(*Runtime).evalPrimaryExpressionGroup", 1, 0))) ==> RvInt(result) == RvInt(siteret("(*Runtime).evalPrimaryExpressionGroup", 0, 0)) % RvInt(siteret("(*Runtime).evalPrimaryExpressionGroup", 1, 0))
+//@   callsite (*Runtime).evalPrimaryExpressionGroup 0 requires [left-operand-first] {C04} node == caller.node.binaryExprNode.Left
+//@   callsite (*Runtime).evalPrimaryExpressionGroup 1 requires [right-operand-second] {C04} node == caller.node.binaryExprNode.Right
 //@   ensures [balanced] SameS(st)
 //@   anypanic
 //@   exsures [runtime-valid-on-panic] RtX(st)
@@ -346,6 +359,11 @@ package jet
 //@   requires RtOK(st) && node != nil && WF(iface(node, "*AdditiveExprNode"))
 //@   modifies @Interp
 //@   check [a-float-operand-makes-the-operation-floating-point] {C04} KFloat(RvKind(lastret("(*Runtime).evalPrimaryExpressionGroup", 0))) ==> ncalls("toInt") == 0 && ncalls("toUint") == 0
+//@   check [two-go-integers-add-and-subtract-integrally] {C04} node.binaryExprNode.Left != nil && KInt(RvKind(siteret("(*Runtime).evalPrimaryExpressionGroup", 1, 0))) && KInt(RvKind(siteret("(*Runtime).evalPrimaryExpressionGroup", 2, 0))) ==> RvKind(result) == 6 && RvInt(result) == ite(node.binaryExprNode.Operator.typ == itemAdd, RvInt(siteret("(*Runtime).evalPrimaryExpressionGroup", 1, 0)) + RvInt(siteret("(*Runtime).evalPrimaryExpressionGroup", 2, 0)), RvInt(siteret("(*Runtime).evalPrimaryExpressionGroup", 1, 0)) - RvInt(siteret("(*Runtime).evalPrimaryExpressionGroup", 2, 0)))
+//@   check [unary-minus-negates-an-integer] {C04} node.binaryExprNode.Left == nil && KInt(RvKind(siteret("(*Runtime).evalPrimaryExpressionGroup", 0, 0))) ==> RvKind(result) == 6 && RvInt(result) == ite(node.binaryExprNode.Operator.typ == itemAdd, RvInt(siteret("(*Runtime).evalPrimaryExpressionGroup", 0, 0)), 0 - RvInt(siteret("(*Runtime).evalPrimaryExpressionGroup", 0, 0)))
+//@   callsite (*Runtime).evalPrimaryExpressionGroup 0 requires [unary-sign-evaluates-its-operand] {C04} node == caller.node.binaryExprNode.Right
+//@   callsite (*Runtime).evalPrimaryExpressionGroup 1 requires [left-operand-first] {C04} node == caller.node.binaryExprNode.Left
+//@   callsite (*Runtime).evalPrimaryExpressionGroup 2 requires [right-operand-second] {C04} node == caller.node.binaryExprNode.Right
 //@   ensures [balanced] SameS(st)
 //@   anypanic
 //@   exsures [runtime-valid-on-panic] RtX(st)
@@ -794,6 +812,7 @@ package jet
 //@ ufunc ParamT(reflect.Type, int) reflect.Type
 //@ axiom forallT(t, "reflect.Type", forallT(k, "int", ParamT(t, k) == ite(TVariadic(t) && k >= TNumIn(t) - 1, TElem(TIn(t, TNumIn(t) - 1)), TIn(t, k))))
 //@ axiom forallT(v, "reflect.Value", forallT(t, "reflect.Type", RvTypeOf(RvConv(v, t)) == t && TAssign(t, t)))
+//@ axiom forallT(i, "interface{}", istype(i, "int64") ==> RvValid(RvOf(i)) && RvKind(RvOf(i)) == 6 && RvInt(RvOf(i)) == as(i, "int64"))
 //@ axiom forallT(i, "interface{}", istype(i, "bool") ==> RvValid(RvOf(i)) && RvKind(RvOf(i)) == 1 && RvBool(RvOf(i)) == as(i, "bool"))
 //@ immutable {C14,C12} global stringType
 // reflect.ValueOf(make(map[string]interface{})): a non-nil map keyed by string whose elements may be anything
